@@ -334,11 +334,14 @@ Definition crash_points (c : cfg) (w : world) (o : op) : list world :=
 
 (* ------------------------------------------------------------------ deletions from outside *)
 (* Somebody removes the whole log directory, or only the file the sink has open, behind the sink's back.  These are NOT
-   operations of the histories C08 quantifies over (its statement lists external RENAME followed by Reopen only: after a
+   (nor the [XAppend] of foreign bytes to one of the sink's files) operations of the histories C08 quantifies over (its statement lists external RENAME followed by Reopen only: after a
    deletion acknowledged events are simply gone), which is why they live in a separate type: every theorem about [list op]
    histories is a theorem about histories without deletions.  They exist for C15's clause "in a directory created on
    demand": the next open() re-creates the directory (0700) and a new file (configured mode). *)
-Inductive xop := XOp (o : op) | XRmDir (t : Z) | XRmActive (t : Z).
+Inductive xop := XOp (o : op) | XRmDir (t : Z) | XRmActive (t : Z)
+  | XAppend (pos : N) (x : N) (t : Z).   (* somebody appends the bytes of chunk x to the pos-th (0 = oldest) file of the sink *)
+Definition fs_append_name (n : name) (x : N) (fs : list file) : list file :=
+  map (fun f => if name_eqb (f_name f) n then add_data f x else f) fs.
 Definition fs_remove_ino (i : N) (fs : list file) : list file := filter (fun f => negb (N.eqb (f_ino f) i)) fs.
 Definition set_dir (w : world) (fs : list file) (dm : option N) : world :=
   {| files := fs; dirmode := dm; fopen := fopen w; bw := bw w; lc := lc w; clock := clock w; next_ino := next_ino w;
@@ -352,6 +355,11 @@ Definition xstep3 (c : cfg) (w : world) (x : xop) : world * bool * bool :=
       | Some (i, _) => (set_clock (set_files w (fs_remove_ino i (files w))) t, true, false)
       | None => (set_clock w t, true, false)
       end
+  | XAppend pos x t =>
+      match nth_error (reading_files (files w)) (N.to_nat pos) with
+      | Some f => (set_clock (set_files w (fs_append_name (f_name f) x (files w))) t, true, false)
+      | None => (set_clock w t, true, false)
+      end
   end.
 Definition xstep (c : cfg) (w : world) (x : xop) : world := fst (fst (xstep3 c w x)).
-Definition xop_clock (x : xop) : op := match x with XOp o => o | XRmDir t | XRmActive t => Pause t end.
+Definition xop_clock (x : xop) : op := match x with XOp o => o | XRmDir t | XRmActive t | XAppend _ _ t => Pause t end.
